@@ -21,6 +21,9 @@ package arvados
 //	   particular the final one, after failures have stopped);
 //	M5 (own stream) load a generated valid manifest, save it unchanged: every file's
 //	   content and the total size are preserved, and no block is written.
+//
+// Stream "conc" (c09_conc_test.go) applies M1-M4 to saves that run while
+// other goroutines keep writing through open handles.
 
 import (
 	"fmt"
@@ -510,6 +513,9 @@ func TestVerifC09(t *testing.T) {
 			run.Feature(fmt.Sprintf("kth:bs=%d,init=%s,puts=%d,gate=%v", cfg.BS, cfg.Init, c08Min(total, 16), cfg.Gate))
 		}
 	})
+
+	// ---- saves concurrent with writers (c09_conc_test.go)
+	c09ConcStream(run, r)
 
 	// ---- M5: load a valid manifest, save it unchanged
 	n5 := run.N(1500, 40000)
